@@ -28,7 +28,7 @@ RULE = ('every base model x solver x every subset of the rewrite group of size <
         'combination of variants of the active rewrites, plus every subset of size k+1 with the first variant of each;  palette = VERIF_SEED mod 4 in the quick tier, all 4 in the '
         'thorough tier; non-trivial = at least one rewrite active, both builds report optimal and agree.  '
         'Own-set family: every (relation of own to default set: in / out / shift / n1 / n1r) x (placement: first / last / '
-        'all / two own sets) base x solver (default; thorough: + ECOS) x the same subsets of rewrites (quick: without the '
+        'all / two own sets) base x solver (default; thorough: + ECOS on the palette VERIF_SEED mod 4) x the same subsets of rewrites (quick: without the '
         'size k+1 first-variant subsets); each case is '
         'compared with the base build AND with the vertex-list LP optimum; non-trivial = optimal, equal to the reference, '
         'and the reference is measurably set-sensitive: replacing the own set of any resource row by the default set, or '
@@ -78,7 +78,7 @@ def gen_cases(tier, seed):
                     continue        # own-set family, quick tier: subsets of size <= k only (thorough: also size k+1)
                 for base in OWN_BASES:
                     for how in OWN_HOWS[tier]:
-                        for pal in pals:
+                        for pal in (pals if how == 'def' else [seed % 4]):     # ECOS: one palette
                             yield {'base': base, 'how': how, 'pal': pal, 'act': act}
 
 
